@@ -312,6 +312,13 @@ class Ctx(object):
         tr = case["trains"] if which is None else [case["trains"][k] for k in which]
         out = []
         for k, s in enumerate(tr):
+            if self.evals % 2 == 0 and s:
+                # a train listed twice is, half of the time, literally the same object (users write [a, a, b])
+                same = [q for q in range(k) if tr[q] == s]
+                if same:
+                    out.append(out[same[0]])
+                    self.counters["same_object_listed_twice"] += 1
+                    continue
             v = (self.evals + k) % 5
             if v == 2:
                 spikes = [float(t) for t in s]
